@@ -14,32 +14,33 @@ IMPL = 'harness/impl/c15_impl.py'
 SHARD = 60
 IMPL_KW = {'shards': 8}
 TRUSTED = ['Gen/Tables.v (operation classes, channel ids, OpenQL factory table incl. the kernel calls of every factory) is regenerated from the source on every run',
-           'the walk OpenQLCircuitFactoryManager.construct (program/kernel creation, add_program during the walk, add_kernel last, naming) is a '
+           'the walk OpenQLCircuitFactoryManager.construct / _extend_kernel (one program, one kernel, sub-circuits expanded in place, naming) is a '
            'hand-written model (C15/Model.v), tied by the correspondence run against recording doubles of PlatformManager.construct_program/kernel',
            'the documented calls of each class (C15/Spec.v) are written by hand, independently of the tables',
            'recording doubles and the translation of names to their symbolic form (uuid5 prefix looked up among the class-name sequences of the '
-           'circuit\'s listings) live in the driver; the real OpenQL is used as an oracle for `duplicate kernel name` and for the compiled cQASM']
+           'circuit\'s listings) live in the driver; the real OpenQL is used as an oracle (export + Program.compile() must succeed, cQASM gate order per qubit)']
 ASSUMPTIONS = ['"executed gate order" of a program = for each item in the order added: a sub-program\'s executed order, a kernel\'s calls (what OpenQL does '
-               'with the calls in Program.compile() is observed on a few real-platform cases, not proved)',
+               'with the calls in Program.compile() is observed on the real-platform cases, not proved)',
                'uuid5 is modelled as an arbitrary function of the class-name sequence',
                'domain: waits of a whole non-negative number of time units (OpenQL\'s wait takes an unsigned integer; int() truncates other durations, '
                'which the model mirrors and only model = implementation compares), distinct qubits on a controlled-phase, repetition counts >= 1',
                'listing order (get_node_iterator) is taken from the implementation: the driver serialises the listing tree']
 RULE = ('random build programs through DeclarativeCircuit.add over all 26 leaf classes, flat (about half) and nested (depth <= 3, repetition counts 1..3), '
-        'with and without circuit_id, exported against recording doubles (call log + structure, built twice for name determinism); plus a small '
-        'fixed set exported and compiled with the real OpenQL platform (flat programs, and the F7 witnesses). non-trivial: >= 2 exported calls on a '
-        'shared qubit, a controlled-phase, a wait, or a sub-circuit')
-LEVEL_TEXT = ('Coq theorems over the generated factory table: for circuits without sub-circuits the executed call sequence of the modelled export is '
-              'the in-order image (C15_partial); the export as coded is refuted on x180; block[y90]; x90 (C15_refuted); a walk that closes the '
-              'kernel before each block satisfies the full statement (openql_in_order); names depend on the class-name sequence only. '
-              'Correspondence by vm_compute against recorded API calls of the real exporter.')
-LEVEL_NOTE = ('The full statement does not hold for the code as it is (F7a/b/c, known findings, all confined to circuits containing a sub-circuit); '
-              'flat circuits are checked in full. Program.compile() is observed, not proved.')
-TECHNIQUE = 'Coq proof over translator-generated tables + randomised correspondence (recording doubles) evaluated by vm_compute'
-
-KNOWN_SUB = 'circuit contains a sub-circuit'
-KNOWN_SUB_REPS = 'circuit contains a sub-circuit (real OpenQL, repetition count >= 2)'
-KNOWN_SUB_TWINS = 'circuit contains a sub-circuit (real OpenQL, two sub-circuits with equal class-name sequence)'
+        'with and without circuit_id, exported against recording doubles (call log + structure, built twice for name determinism); plus a fixed set '
+        '(thorough: also random flat programs) exported and compiled with the real OpenQL platform, among them the three F7 witnesses. '
+        'non-trivial: >= 2 exported calls on a shared qubit, a controlled-phase, a wait, or a sub-circuit')
+LEVEL_TEXT = ('Machine-checked (Coq) over the factory table regenerated from the source: for every listing tree in the domain -- flat or nested, any '
+              'repetition counts -- the modelled export returns, and what it executes is exactly the documented call sequence of the expanded '
+              'listing in listing order (cz + barrier + two phase updates per controlled-phase, waits with their duration, sub-circuits in place and '
+              'repeated, unsupported kinds omitted), in one kernel; program and kernel names are a function of the class-name sequence (and the given '
+              'id) for every hash function. The model is the one the correspondence run compares, call by call, with the API calls recorded from the '
+              'real exporter on random flat and nested programs; the specification (not the model) judges the recorded output, and a fixed set of '
+              'programs is exported and compiled with the real OpenQL.')
+LEVEL_NOTE = ('Trusted: Coq kernel, the ast translator (its table is re-proved equal to the hand-written documentation on every run), the hand-written '
+              'walk model (tied by correspondence only), recording doubles and name symbolisation in the driver. Listing order is taken from the '
+              'implementation. Program.compile() is observed, not proved. C15_old_walk_refuted is history about the pre-40c98cf walk (F7, fixed). '
+              'No axioms (Print Assumptions: closed).')
+TECHNIQUE = 'Coq proof (nested structural induction over the listing tree) over translator-generated tables + randomised correspondence against recording doubles and the real OpenQL, evaluated by vm_compute'
 
 X180 = {'op': 'Rx180', 'q': [0]}
 Y90 = {'op': 'Ry90', 'q': [0]}
@@ -59,6 +60,7 @@ def corpus():
     cases = [
         {'k': 'rec', 'prog': [X180, {'op': 'Barrier', 'q': [0]}, {'op': 'Wait', 'q': [0], 'a': [0]}, {'op': 'DispersiveMeasure', 'q': [0]}], 'cid': 'unit_test_circuit'},
         {'k': 'rec', 'prog': REAL_FLAT[0]},
+        # F7 (fixed in 40c98cf): sub-circuit order, repetition count 2, two sub-circuits with equal class names
         {'k': 'rec', 'prog': W_F7A}, {'k': 'rec', 'prog': W_F7B}, {'k': 'rec', 'prog': W_F7C, 'cid': 'two_blocks'},
         {'k': 'rec', 'prog': [{'reps': 2, 'body': [Y90, {'reps': 3, 'body': [X90, {'op': 'Wait', 'q': [0], 'a': [7]}]}]}, X180]},
     ]
@@ -188,30 +190,6 @@ def to_coq(case, out):
 
 
 # ----------------------------------------------------------------------------------------- metadata
-def blocks(prog):
-    for c in prog:
-        if 'body' in c:
-            yield c
-            yield from blocks(c['body'])
-
-
-def class_seq(prog):
-    return [l['op'] for l in G.leaves(prog)]
-
-
-def known_class(case, out):
-    bl = list(blocks(case['prog']))
-    if not bl:
-        return None
-    if case['k'] == 'real' and out.get('error') == 'dup':
-        if any(G.reps_of(b) >= 2 for b in bl):
-            return KNOWN_SUB_REPS
-        seqs = [tuple(class_seq(b['body'])) for b in bl]
-        if len(set(seqs)) < len(seqs):
-            return KNOWN_SUB_TWINS
-    return KNOWN_SUB
-
-
 def kind(case):
     d = G.depth(case['prog'])
     base = 'flat' if d == 0 else f'nested-depth-{d}'
